@@ -14,10 +14,25 @@ RULE = ('case = (many-valued table: column types from {IntervalPS, IntervalNumpy
         'on the CURRENT content}.  Object lists for closures / from_objects and base lists include repetitions, every '
         'order, tuples, arrays and sets; interval ends are mapped through order-preserving scales with values float32 '
         'cannot hold and +-inf.  Exhaustive over all small tables, then seeded random larger tables. '
+        'Wave-4 classes: (H6) SetPS values / column names / object names containing the library\'s own separators and '
+        'sentinels (\', \', \': \', a value named like the empty-description mark, names ending in _from/_to, an AttributePS column '
+        'named exactly like a binary attribute another column generates), judged on width = n_bin_attrs = produced (in '
+        'total and per column), columns of binarize() = produced extents in order, closed sets, both mining paths and the '
+        'name-keyed extension(intention(.)); (H4) every history also with edits that keep hash(): -1 <-> -2, 1.0 <-> 2.0**61, '
+        '0 <-> 2**61-1, tuples / frozensets of them, equal re-spellings 1 / 1.0 / True, 0 / 0.0 / False, and edits that keep '
+        'zlib.adler32 of the hash_fixed() text (131.0 <-> 212.0, bdb <-> cbc in values and object names), through ps.data = .., '
+        'in-place edits of ps.data[i], pattern_structures = .., and a SECOND context object with colliding hashes (H4b); '
+        '(H5) Kb = binarize() then a mutation of K or of Kb, then both asked, and binarize() asked again; (H7) index '
+        'lists with repetitions of length n, full-range permutations, n+-1 entries for closures, from_objects and bases; '
+        '(H8) 64 / 65 / 129 objects in both binarising shapes and object-wise, the last object distinguishing closed sets. '
         'Tables for which BottomOK fails (AttributePS empty-set convention, finding D17) are kept in their own streams. '
         'non-trivial = at least 2 rows, not all rows equal; distinct = distinct (kind, types, cells, extra arguments)')
 EXHAUSTIVE = {
-    'quick': 'histories: every 2-row one-column table (IntervalPS, IntervalNumpyPS, SetPS, AttributePS) replaced by every '
+    'quick': 'H6: every 3-row one-column SetPS table over the cells {}, {a}, {b}, {"a, b"}, {a,b}, {the empty mark}; every 2-row '
+             '(SetPS, AttributePS named like a generated binary attribute) table; H4: every 3-row one-column interval table '
+             '(IntervalPS and IntervalNumpyPS) of points over {-3,-2,-1,0} x every single swap -1 <-> -2 x {ps.data =, in place}, '
+             'every 3-row SetPS table over {-2}, {-1}, {1}, {-1,1} x every swap to the hash partner; '
+             'histories: every 2-row one-column table (IntervalPS, IntervalNumpyPS, SetPS, AttributePS) replaced by every '
              'other one through ps.data after a full first use, judged as bin/lat/cl on the new content; all 1-column '
              'IntervalNumpyPS tables with <=3 rows and 2-column tables with <=2 rows containing one; closure laws on EVERY '
              'index list of length <= n (repetitions included) for n <= 3; then the object-wise stream: all 4-row x 2-column tables over {IntervalPS on {0,1}: 2 points + 1 interval, '
@@ -35,10 +50,20 @@ EXPLANATION = ('Lean proves, for every many-valued context with BottomOK, that a
                'closure/extension outputs are pinned uniquely (Lean: model = conjunctive filter, closure laws proved), so '
                'implementation != spec is a property failure; lattices are compared as sets of (extent, description) '
                'against the brute-force closed sets (Lean spec) and the cover relation of inclusion; the binarised table '
-               'is judged by brute-force concept enumeration in Lean (Spec.allConcepts).  Failures on tables with '
+               'is judged by brute-force concept enumeration in Lean (Spec.allConcepts).  Names of binary attributes are '
+               'labels of positions (binarize_one_attribute_per_description: one attribute per produced description whatever the '
+               'names) and every answer is about the current content (binarize_after_history).  On 64 / 65 / 129 objects '
+               'nothing is enumerated: the binarised table is judged point-wise by binarize_same_closed_sets on directed '
+               'object lists, the lattice against the model\'s own path, which IS the set of closed sets by mv_lattice_exact '
+               '(BottomOK from an interval column, bottomOK_characterised).  Failures on tables with '
                'not BottomOK are classified under the known finding C14:attributeps-empty-set-convention.')
 ASSUMPTIONS = ['every many-valued context has >= 1 object and >= 1 pattern structure; cells are valid for their structure',
-               'interval ends are integral floats (exactly representable); SetPS symbols are single letters',
+               'interval ends are exactly representable floats; the values of one SetPS column are mutually comparable '
+               '(sorted() of mixed strings and numbers raises in the unchanged code) or, for the frozenset pool, the order of '
+               'the binary attributes is left open (columns compared as a multiset)',
+               'column (pattern structure) names and object names are pairwise distinct strings (the constructor takes a dict; '
+               'from_objects / extension / intention resolve names); names of BINARY attributes may repeat',
+               'in-place edits of ps.data[i] store a value of the shape the structure itself stores',
                'object index arguments are lists/tuples (bases also arrays and sets) of valid indexes, repetitions allowed',
                'descriptions passed to extension_i have the shape of their column (dict keys are valid column indexes)']
 TRUSTED = ['the worklist loops of close_by_one_objectwise(_fbarray) are the machine cboLoop of Model/CbO (property C02) run with '
@@ -50,6 +75,66 @@ TRUSTED = ['the worklist loops of close_by_one_objectwise(_fbarray) are the mach
 CHUNK = 150
 SYM = 'abc'
 KNOWN_SIG = 'C14:attributeps-empty-set-convention'
+
+# ----------------------------------------------------------------------------------------------------------
+# value pools of SetPS columns (class H6: the library's own separators / sentinels inside values; class H4: values
+# with colliding hashes).  A case names its pool; its SetPS cells are lists of indexes into the pool, and the pool is
+# listed in the order Python's sorted() gives (the order in which SetPS numbers its binary attributes), so the Lean
+# model (symbols = Nat, numbered in sorted order) is the same up to that order isomorphism.
+P61 = 2 ** 61 - 1           # CPython: hash(x) = x mod P61 for ints, and -1 is mapped to -2
+POOLS = {
+    'abc': list('abc'),
+    'abcdefg': list('abcdefg'),
+    # values containing ', ' / ': ' (the separators of generated binary-attribute names), the empty-description mark,
+    # the column suffixes of to_numeric, the empty string
+    'sep': sorted(['a', 'b', 'a, b', 'b, a', '\u2205', ', ', ': ', 'a: b', '', 'a_from']),
+    # equal-length strings with equal zlib.adler32 (x+1, y-2, z+1 on three consecutive characters)
+    'adler': sorted(['bdb', 'cbc', 'a', 'ace', 'bad']),
+    # numbers with colliding hash(): -1/-2, 0/2**61-1, 1/2**61
+    'num': [-2, -1, 0, 1, 2, P61, P61 + 1],
+    # tuples of such numbers
+    'tup': sorted([(-2, 0), (-1, 0), (0, -2), (0, -1), (0, 0), (0, P61), (1, 1), (1, P61 + 1)]),
+    # frozensets of such numbers: pairwise incomparable, so sorted() keeps the iteration order of the set -- the ORDER of
+    # the produced binary attributes is not modelled for this pool (columns are compared as a multiset)
+    'fs': [frozenset([-2, 5]), frozenset([-1, 5]), frozenset([0, 6]), frozenset([P61, 6]), frozenset([7])],
+}
+UNORDERED_POOLS = ('fs',)
+for _nm, _p in POOLS.items():
+    assert len(set(_p)) == len(_p), _nm
+    if _nm not in UNORDERED_POOLS:
+        assert sorted(_p) == _p and all(a < b for a, b in zip(_p, _p[1:])), _nm
+
+
+def pool_of(c):
+    return POOLS[c.get('pool') or 'abc']
+
+
+def hash_partners(vals):
+    """{i: [j..]}: indexes of DIFFERENT values with the same CPython hash()"""
+    out = {}
+    for i, a in enumerate(vals):
+        js = [j for j, b in enumerate(vals) if j != i and a != b and hash(a) == hash(b)]
+        if js:
+            out[i] = js
+    return out
+
+
+def adler_partners(vals):
+    import zlib
+    out = {}
+    for i, a in enumerate(vals):
+        js = [j for j, b in enumerate(vals) if j != i and a != b and len(repr(a)) == len(repr(b)) and
+              zlib.adler32(('x' + repr(a) + 'y').encode()) == zlib.adler32(('x' + repr(b) + 'y').encode()) and
+              zlib.adler32((repr(a) + 'yz').encode()) == zlib.adler32((repr(b) + 'yz').encode())]
+        if js:
+            out[i] = js
+    return out
+
+
+# the one helper the shared generator module offers for this class; the pools above extend it to the other collisions
+assert G.pyhash_collide_value(-1) == -2 and G.pyhash_collide_value(-2.0) == -1.0
+assert hash_partners(POOLS['num']) == {0: [1], 1: [0], 2: [5], 5: [2], 3: [6], 6: [3]}
+assert hash_partners(POOLS['tup']) and hash_partners(POOLS['fs']) and adler_partners(POOLS['adler'])
 
 # ----------------------------------------------------------------------------------------------------------
 # cell domains
@@ -112,13 +197,28 @@ def all_descs(types, iv_grid=(0, 1, 2), syms=2):
     return out
 
 
+def h7_lists(n):
+    """class H7: index lists whose LENGTH says "all objects" although they are not: repetitions of length n, full-range
+    permutations, the full range plus / minus one entry"""
+    full = list(range(n))
+    out = [[n - 1] * n, [0] * n, list(reversed(full)), full + [0], [n - 1] + full, full[1:] + full[1:2]]
+    if n >= 2:
+        out += [[(i // 2) * 2 % n for i in range(n)], [n - 1 - (i // 2) for i in range(n)], full[1:], full[:-1],
+                [n - 1] * (n + 1), full[1:] + [n - 1]]
+    return [x for k, x in enumerate(out) if x and x not in out[:k]]
+
+
 def fill(c, rng=None):
     """derive the kind-specific arguments of a case from its table"""
     n = len(c['rows'])
+    if c.get('big'):
+        return c            # the large directed cases bring their own lists
     if c['kind'] == 'cl':
         if n <= 3:
-            # every non-empty index list of length <= n, repetitions and every order included
+            # every non-empty index list of length <= n, repetitions and every order included; and the H7 lists
+            # that are one longer than the number of objects
             c['subsets'] = [list(p) for k in range(1, n + 1) for p in itertools.product(range(n), repeat=k)]
+            c['subsets'] += [x for x in h7_lists(n) if len(x) > n]
         else:
             subs = [s for s in G.sorted_sublists(range(n)) if s]
             if n > 4:
@@ -135,17 +235,18 @@ def fill(c, rng=None):
                 extra.append([r.randrange(n) for _k in range(n)])
             for _ in range(6):
                 extra.append([r.randrange(n) for _k in range(r.randint(1, 2 * n))])
-            c['subsets'] = subs + extra
+            c['subsets'] = subs + extra + [x for x in h7_lists(n) if x not in subs]
     elif c['kind'] == 'conj':
         if 'descs' not in c:
             c['descs'] = all_descs(c['types'])
         if n <= 3:
             # None, and every index list of length <= n (repetitions and every order included)
             c['bases'] = [None] + [list(p) for k in range(n + 1) for p in itertools.product(range(n), repeat=k)]
+            c['bases'] += [x for x in h7_lists(n) if len(x) > n]
         else:
             r = rng or random.Random(n)
             c['bases'] = [None, []] + [G.random_sel(r, n) for _ in range(4)] + \
-                [[r.randrange(n) for _k in range(r.randint(1, n + 2))] for _ in range(4)]
+                [[r.randrange(n) for _k in range(r.randint(1, n + 2))] for _ in range(4)] + h7_lists(n)[:6]
     return c
 
 
@@ -153,7 +254,7 @@ NOTBOTTOM_CAP = 80   # tables; the runner stops a run after 200 failing cases, k
 _notbottom_seen = [0]
 
 
-def table_cases(types, rows, stream, kinds=('cl', 'conj', 'bin', 'lat'), rng=None, descs=None, scale=None):
+def table_cases(types, rows, stream, kinds=('cl', 'conj', 'bin', 'lat'), rng=None, descs=None, scale=None, **extra):
     if not bottom_ok_py(types, rows):
         stream = stream + '-notbottomok'
         _notbottom_seen[0] += 1
@@ -162,6 +263,7 @@ def table_cases(types, rows, stream, kinds=('cl', 'conj', 'bin', 'lat'), rng=Non
             kinds = tuple(k for k in kinds if k in ('cl', 'conj'))
     for kind in kinds:
         c = dict(stream=stream, kind=kind, types=list(types), rows=[list(r) for r in rows])
+        c.update({k: v for k, v in extra.items() if v is not None and (k != 'subsets' or kind in ('cl', 'bin'))})
         if scale is not None:
             c['scale'] = scale
         if kind == 'conj' and descs is not None:
@@ -253,10 +355,10 @@ def pooled_table(rng):
 
 
 def hist_cases(types, rows0, rows, stream, mut, pre, rng=None, names2=None, scale=None, subs=('bin', 'lat', 'cl'),
-               all_cols=False):
+               all_cols=False, **extra):
     """use -> mutate -> use on one object; the second use is judged on the final content `rows`"""
     if not bottom_ok_py(types, rows):
-        subs = tuple(x for x in subs if x == 'cl')     # D17 tables: only what the known finding does not touch
+        subs = tuple(x for x in subs if x in ('cl', 'conj'))     # D17 tables: only what the known finding does not touch
     for sub in subs:
         c = dict(stream=stream, kind='hist', sub=sub, types=list(types), rows0=[list(r) for r in rows0],
                  rows=[list(r) for r in rows], mut=mut, pre=list(pre))
@@ -266,7 +368,15 @@ def hist_cases(types, rows0, rows, stream, mut, pre, rng=None, names2=None, scal
             c['scale'] = scale
         if all_cols:
             c['all_cols'] = True
-        if sub == 'cl':
+        big_subsets = extra.get('subsets')
+        c.update({k: v for k, v in extra.items() if v is not None and k not in ('subsets', 'descs')})
+        if extra.get('descs') is not None:
+            c['descs'] = extra['descs']     # asked before the mutation (first use) and, in the 'conj' sub-case, after it
+        if sub == 'conj':
+            c['bases'] = fill(dict(kind='conj', rows=c['rows'], types=c['types'], descs=c['descs']), rng)['bases']
+        if big_subsets is not None and sub in ('cl', 'bin'):
+            c['subsets'] = big_subsets
+        elif sub == 'cl':
             c['subsets'] = fill(dict(kind='cl', rows=c['rows']), rng)['subsets']
         yield c
 
@@ -297,6 +407,402 @@ def mutate_rows(rng, types, rows, grid, syms):
     else:
         new = [[cell(t) for t in types] for _ in range(n)]
     return new
+
+
+# ----------------------------------------------------------------------------------------------------------
+# wave-4 classes: H6 (separators / sentinels in values and names), H4 (hash-preserving edits), H5 (binarize() results
+# are independent objects), H8 (64 / 65 / 129 objects)
+
+ATTR_NAME_POOL = ['s', 'i', 'x_from', 'x_to', 'x', ', ', ': ', '\u2205', '', 's: a', 's_from', 'not s', 'a, b']
+OBJ_NAME_POOL = ['g0', 'g1', 'g0, g1', ', ', ': ', '\u2205', '', 'g_from', 'bdb', 'cbc', 'a', 'b', 'a, b']
+
+
+def py_bin_names(types, rows, names, pool, scale):
+    """names the library generates for the binary attributes of each column (replicated here only to AIM the generator
+    at collisions; nothing is judged with it)"""
+    out = []
+    for j, (t, nm) in enumerate(zip(types, names)):
+        col = [r[j] for r in rows]
+        if t == 'S':
+            uniq = sorted({x for v in col for x in v})
+            for k in range(len(uniq), -1, -1):
+                for comb in itertools.combinations(uniq, k):
+                    out.append(f"{nm}: " + (', '.join(str(pool[x]) for x in comb) if comb else '\u2205'))
+        elif t in 'IN':
+            up = (lambda x: float(x)) if scale is None else (lambda x: scale[x])
+            lo, hi = min(v[0] for v in col), max(v[1] for v in col)
+            out += [f"{nm}: ({up(lo)}, {up(hi)})", f"{nm}: \u2205"]
+        else:
+            out.append(nm)
+    return out
+
+
+def special_names(rng, types, rows, pool, scale, collide=0.6):
+    """distinct column names from the pool of special spellings; with probability `collide` an AttributePS column is
+    named exactly like a binary attribute another column generates"""
+    m = len(types)
+    names = rng.sample(ATTR_NAME_POOL, m)
+    if 'A' in types and m > 1 and rng.random() < collide:
+        j = rng.choice([k for k, t in enumerate(types) if t == 'A'])
+        others = [k for k in range(m) if k != j]
+        gen_names = py_bin_names([types[k] for k in others], [[r[k] for k in others] for r in rows],
+                                 [names[k] for k in others], pool, scale)
+        cand = [g for g in gen_names if g not in names]
+        if cand:
+            names[j] = rng.choice(cand)
+    return names
+
+
+def set_cell(rng, universe, kmax=2):
+    return sorted(rng.sample(universe, rng.randint(0, min(kmax, len(universe)))))
+
+
+def h6_cases(tier, rng):
+    sep = POOLS['sep']
+    ix = sep.index
+    # (1) one SetPS column: the values 'a', 'b' next to 'a, b' (equal generated names "s: a, b"), the value named like
+    #     the empty-description mark next to empty cells: every 3-row table over these six cells
+    cells = [[], [ix('a')], [ix('b')], [ix('a, b')], sorted([ix('a'), ix('b')]), [ix('\u2205')]]
+    for combo in itertools.product(cells, repeat=3):
+        rows = [[list(v)] for v in combo]
+        yield from table_cases(['S'], rows, 'h6-exhaustive', kinds=('cl', 'bin', 'lat'), pool='sep',
+                               attr_names=['s'], byname=True)
+    # (2) an AttributePS column named like a binary attribute of the SetPS column next to it
+    cells2 = [[ix('a')], [ix('b')], [ix('a, b')], sorted([ix('a'), ix('b')])]
+    anames = ['s: a', 's: a, b', 's: \u2205', 's: b']
+    k = 0
+    for combo in itertools.product(cells2, repeat=2):
+        for flags in itertools.product((0, 1), repeat=2):
+            rows = [[list(v), f] for v, f in zip(combo, flags)]
+            k += 1
+            if bottom_ok_py(['S', 'A'], rows):
+                yield from table_cases(['S', 'A'], rows, 'h6-exhaustive', kinds=('bin', 'lat'), pool='sep',
+                                       attr_names=['s', anames[k % 4]])
+    # (3) random tables: values from the separator / adler pools, special column and object names
+    for _ in range(140 if tier == 'quick' else 1500):
+        n, m = rng.randint(2, 5), rng.randint(1, 3)
+        types = [rng.choice('SSSIA') for _j in range(m)]
+        if 'S' not in types:
+            types[rng.randrange(m)] = 'S'
+        pool_name = rng.choice(('sep', 'sep', 'adler'))
+        pool = POOLS[pool_name]
+        univ = {j: rng.sample(range(len(pool)), min(len(pool), rng.randint(2, 4))) for j in range(m)}
+        if pool_name == 'sep' and rng.random() < 0.6:
+            univ[rng.randrange(m)] = [ix('a'), ix('b'), ix('a, b')] + ([ix('\u2205')] if rng.random() < 0.5 else [])
+        grid = [0, 1, 2]
+        rows = []
+        for _i in range(n):
+            r = []
+            for j, t in enumerate(types):
+                if t == 'S':
+                    r.append(set_cell(rng, univ[j]))
+                elif t == 'I':
+                    a, b = sorted((rng.choice(grid), rng.choice(grid)))
+                    r.append([a, a] if rng.random() < 0.5 else [a, b])
+                else:
+                    r.append(rng.randint(0, 1))
+            rows.append(r)
+        if not bottom_ok_py(types, rows):
+            continue
+        names = special_names(rng, types, rows, pool, None)
+        objn = rng.sample(OBJ_NAME_POOL, n)
+        descs = []
+        for _k in range(8):
+            d = []
+            for j in rng.sample(range(m), rng.randint(0, m)):
+                t = types[j]
+                if t == 'S':
+                    d.append([j, {'S': None if rng.random() < 0.1 else set_cell(rng, univ[j], 3)}])
+                elif t == 'I':
+                    a, b = sorted((rng.choice(grid), rng.choice(grid)))
+                    d.append([j, {'I': None if rng.random() < 0.1 else [a, b]}])
+                else:
+                    d.append([j, {'B': rng.randint(0, 1)}])
+            descs.append(d)
+        yield from table_cases(types, rows, 'h6-random', rng=rng, descs=descs, pool=pool_name, attr_names=names,
+                               obj_names=objn, byname=True, sp=rng.choice((0, 0, rng.randrange(1, 10 ** 6))))
+
+
+def h6_hist_cases(tier, rng):
+    """class H1 x H6: the colliding names only come into being through a mutation (a cell corrected from {'a','b'} to
+    {'a, b'}, structures replaced by ones whose names collide) after everything was used once"""
+    sep = POOLS['sep']
+    ix = sep.index
+    univ = [ix('a'), ix('b'), ix('a, b'), ix('\u2205')]
+    made = 0
+    want = 70 if tier == 'quick' else 700
+    while made < want:
+        n, m = rng.randint(2, 4), rng.randint(1, 2)
+        types = ['S'] + [rng.choice('AI') for _j in range(m - 1)]
+
+        def cell(t):
+            if t == 'S':
+                return set_cell(rng, univ)
+            if t == 'I':
+                a, b = sorted((rng.randint(0, 2), rng.randint(0, 2)))
+                return [a, b]
+            return rng.randint(0, 1)
+        rows0 = [[cell(t) for t in types] for _i in range(n)]
+        rows = [[(cell(t) if rng.random() < 0.5 else v) for t, v in zip(types, r)] for r in rows0]
+        if not (bottom_ok_py(types, rows0) and bottom_ok_py(types, rows)) or rows == rows0:
+            continue
+        made += 1
+        mut = rng.choice(('data', 'inplace', 'ps', 'fresh2'))
+        names = ['s'] + rng.sample(['t', 'x_from', '\u2205'], m - 1)
+        ps_names2 = special_names(rng, types, rows, sep, None, collide=1.0) if mut == 'ps' else None
+        yield from hist_cases(types, rows0, rows, 'h6-history', mut, PRE_OPS, rng=rng, pool='sep', attr_names=names,
+                              ps_names2=ps_names2, obj_names=rng.sample(OBJ_NAME_POOL, n), byname=(mut != 'ps'))
+
+
+def h4_partner_edit(rng, types, rows, scale, pool):
+    """one cell changed into a DIFFERENT cell with the same hash(): an interval end / a set value replaced by its
+    hash partner (-1 <-> -2, 1.0 <-> 2.0**61, 0 <-> 2**61-1, tuples / frozensets of them).  None if no cell allows it."""
+    ivp = hash_partners(scale) if scale else {}
+    sp = hash_partners(pool)
+    cand = []
+    for i, r in enumerate(rows):
+        for j, t in enumerate(types):
+            v = r[j]
+            if t in 'IN':
+                for a2 in [v[0]] + ivp.get(v[0], []):
+                    for b2 in [v[1]] + ivp.get(v[1], []):
+                        if a2 <= b2 and [a2, b2] != list(v):
+                            cand.append((i, j, [a2, b2]))
+            elif t == 'S':
+                for x in v:
+                    for y in sp.get(x, []):
+                        if y not in v:
+                            cand.append((i, j, sorted([z for z in v if z != x] + [y])))
+    if not cand:
+        return None
+    i, j, nv = rng.choice(cand)
+    new = [[list(x) if isinstance(x, list) else x for x in r] for r in rows]
+    new[i][j] = nv
+    return new
+
+
+def _check_hash_kept(types, rows0, rows, scale, pool):
+    """the generator's own proof that the edit keeps hash() and changes the content (class H4)"""
+    for r0, r in zip(rows0, rows):
+        for t, v0, v in zip(types, r0, r):
+            if v0 == v:
+                continue
+            if t in 'IN':
+                c0, c1 = tuple(scale[x] for x in v0), tuple(scale[x] for x in v)
+            else:
+                c0, c1 = frozenset(pool[x] for x in v0), frozenset(pool[x] for x in v)
+            assert c0 != c1 and hash(c0) == hash(c1), (c0, c1)
+
+
+H4_MUTS = ('data', 'data', 'inplace', 'inplace', 'ps', 'fresh2')
+
+
+def h4_cases(tier, rng):
+    pts = hash_partners(SCALE_H4)
+    # (1) interval columns: every 3-row table of points over {-3,-2,-1,0}, every single swap -1 <-> -2, re-assigned
+    #     through `ps.data = ...` and edited in place, after everything was used once
+    for t in 'IN':
+        for combo in itertools.product(range(4), repeat=3):
+            rows0 = [[[a, a]] for a in combo]
+            for i, a in enumerate(combo):
+                if a in pts:
+                    rows = [[list(v) for v in r] for r in rows0]
+                    rows[i][0] = [pts[a][0], pts[a][0]]
+                    _check_hash_kept([t], rows0, rows, SCALE_H4, POOLS['abc'])
+                    for mut in ('data', 'inplace'):
+                        yield from hist_cases([t], rows0, rows, 'h4-exhaustive', mut, PRE_OPS, scale=SCALE_H4,
+                                              subs=('bin', 'lat'), sp=(7 * i + a + 1) if mut == 'data' else None)
+    # (2) SetPS over numbers: cells {-2}, {-1}, {1}, {-1, 1}; swaps -1 <-> -2 and 1 <-> 2**61
+    num = POOLS['num']
+    sp_ = hash_partners(num)
+    cells = [[0], [1], [3], [1, 3]]
+    for combo in itertools.product(cells, repeat=3):
+        rows0 = [[list(v)] for v in combo]
+        for i, v in enumerate(combo):
+            for x in v:
+                y = sp_[x][0]
+                if y in v:
+                    continue
+                rows = [[list(w) for w in r] for r in rows0]
+                rows[i][0] = sorted([z for z in v if z != x] + [y])
+                _check_hash_kept(['S'], rows0, rows, None, num)
+                mut = ('data', 'inplace')[(i + x) % 2]
+                yield from hist_cases(['S'], rows0, rows, 'h4-exhaustive', mut, PRE_OPS, pool='num',
+                                      subs=('bin', 'lat'), sp=(5 * i + x + 1) if mut == 'data' else None)
+    # (3) random tables of all four structures; 1-3 hash-preserving edits (or a mere re-spelling 1 / 1.0 / True of the
+    #     same content), every mutation route, every sub-observation
+    made = 0
+    want = 220 if tier == 'quick' else 2500
+    while made < want:
+        n, m = rng.randint(2, 5), rng.randint(1, 3)
+        types = [rng.choice('IINSSA') for _j in range(m)]
+        pool_name = rng.choice(('num', 'num', 'tup', 'fs'))
+        pool = POOLS[pool_name]
+        univ = {j: rng.sample(range(len(pool)), min(len(pool), 3)) for j in range(m)}
+        hot = [1, 2, 4, 6, 5, 7]
+        rows0 = []
+        for _i in range(n):
+            r = []
+            for j, t in enumerate(types):
+                if t in 'IN':
+                    a, b = sorted((rng.choice(hot if rng.random() < 0.7 else range(8)),
+                                   rng.choice(hot if rng.random() < 0.7 else range(8))))
+                    r.append([a, a] if rng.random() < 0.6 else [a, b])
+                elif t == 'S':
+                    r.append(set_cell(rng, univ[j]))
+                else:
+                    r.append(rng.randint(0, 1))
+            rows0.append(r)
+        rows = rows0
+        for _k in range(rng.randint(1, 3)):
+            nxt = h4_partner_edit(rng, types, rows, SCALE_H4, pool)
+            if nxt is not None:
+                rows = nxt
+        if rows == rows0 and rng.random() < 0.7:
+            continue                    # (a few content-preserving re-spellings are kept)
+        _check_hash_kept(types, rows0, rows, SCALE_H4, pool)
+        made += 1
+        pre = PRE_OPS if rng.random() < 0.6 else [op for op in PRE_OPS if rng.random() < 0.5]
+        descs = []
+        for _k in range(6):
+            d = []
+            for j in rng.sample(range(m), rng.randint(1, m)):
+                t = types[j]
+                if t in 'IN':
+                    a, b = sorted((rng.choice(hot), rng.choice(hot)))
+                    d.append([j, {'I': [a, b]}])
+                elif t == 'S':
+                    d.append([j, {'S': set_cell(rng, univ[j], 3)}])
+                else:
+                    d.append([j, {'B': rng.randint(0, 1)}])
+            descs.append(d)
+        yield from hist_cases(types, rows0, rows, 'h4-random', rng.choice(H4_MUTS), pre, rng=rng, scale=SCALE_H4,
+                              pool=pool_name, sp=rng.randrange(1, 10 ** 6), all_cols=rng.random() < 0.2,
+                              subs=('bin', 'lat', 'cl', 'conj'), descs=descs)
+    # (4) edits that keep zlib.adler32 of the text MVContext.hash_fixed() hashes: a value 131.0 <-> 212.0, a SetPS value
+    #     'bdb' <-> 'cbc', an object name 'bdb' <-> 'cbc'
+    import zlib
+    adl = POOLS['adler']
+    ap, aiv = adler_partners(adl), adler_partners(SCALE_ADLER)
+    made = 0
+    want = 60 if tier == 'quick' else 600
+    while made < want:
+        n, m = rng.randint(2, 4), rng.randint(1, 2)
+        types = [rng.choice('ISA') for _j in range(m)]
+        rows0 = [[([rng.choice((1, 1, 2, 0, 3))] * 2 if t == 'I' else [rng.choice(range(len(adl)))] if t == 'S'
+                   else rng.randint(0, 1)) for t in types] for _i in range(n)]
+        rows = [[list(v) if isinstance(v, list) else v for v in r] for r in rows0]
+        for i in range(n):
+            for j, t in enumerate(types):
+                if rng.random() < 0.5:
+                    v = rows[i][j]
+                    if t == 'I' and v[0] in aiv:
+                        rows[i][j] = [aiv[v[0]][0]] * 2
+                    elif t == 'S' and v[0] in ap:
+                        rows[i][j] = [ap[v[0]][0]]
+        objn = rng.sample(['bdb', 'cbc', 'g0', 'g1', 'ace', 'bcf'], n)
+        names2 = [G.adler_collide_name(x) or x for x in objn] if rng.random() < 0.5 else None
+        if names2 is not None and len(set(names2)) < n:
+            names2 = None
+        if rows == rows0 and (names2 is None or names2 == objn):
+            continue
+
+        def text(rs, on):
+            data = [[((SCALE_ADLER[v[0]], SCALE_ADLER[v[1]]) if t == 'I' else {adl[v[0]]} if t == 'S' else bool(v))
+                     for t, v in zip(types, r)] for r in rs]
+            return str(on) + str([str(j) for j in range(m)]) + str(data)
+        if zlib.adler32(text(rows0, objn).encode()) != zlib.adler32(text(rows, names2 or objn).encode()):
+            continue
+        if not (bottom_ok_py(types, rows0) and bottom_ok_py(types, rows)):
+            continue
+        made += 1
+        yield from hist_cases(types, rows0, rows, 'h4-adler', rng.choice(('data', 'inplace', 'ps', 'fresh2')), PRE_OPS,
+                              rng=rng, scale=SCALE_ADLER, pool='adler', obj_names=objn, names2=names2)
+
+
+def h5_cases(tier, rng):
+    made = 0
+    want = 110 if tier == 'quick' else 1200
+    while made < want:
+        pool_name = rng.choice(('abc', 'sep', 'num'))
+        pool = POOLS[pool_name]
+        n, m = rng.randint(2, 5), rng.randint(1, 3)
+        types = [rng.choice('ISAAN') for _j in range(m)]
+        if rng.random() < 0.5:
+            types[rng.randrange(m)] = 'I'
+        univ = {j: rng.sample(range(len(pool)), min(len(pool), 3)) for j in range(m)}
+
+        def cell(j, t):
+            if t in 'IN':
+                a, b = sorted((rng.randrange(8), rng.randrange(8)))
+                return [a, a] if rng.random() < 0.5 else [a, b]
+            if t == 'S':
+                return set_cell(rng, univ[j])
+            return rng.randint(0, 1)
+        rows0 = [[cell(j, t) for j, t in enumerate(types)] for _i in range(n)]
+        side = rng.choice(('src', 'src', 'der'))
+        names2 = None
+        if side == 'src':
+            mut = rng.choice(('data', 'inplace', 'ps'))
+            rows = h4_partner_edit(rng, types, rows0, SCALE_H4, pool) if rng.random() < 0.4 else None
+            if rows is None:
+                rows = [[(cell(j, t) if rng.random() < 0.4 else v) for j, (t, v) in enumerate(zip(types, r))]
+                        for r in rows0]
+            if rng.random() < 0.5:
+                names2 = rng.sample(OBJ_NAME_POOL, n)
+        else:
+            mut = rng.choice(('der-names', 'der-attrs', 'der-data', 'der-all', 'der-scribble'))
+            rows = rows0
+        if not (bottom_ok_py(types, rows0) and bottom_ok_py(types, rows)):
+            continue
+        made += 1
+        c = dict(stream='h5-binarize', kind='h5', side=side, mut=mut, types=list(types), rows0=rows0, rows=rows,
+                 scale=SCALE_H4, pool=pool_name, sp=rng.choice((0, rng.randrange(1, 10 ** 6))),
+                 pre=[op for op in PRE_OPS if rng.random() < 0.3])
+        if names2 is not None:
+            c['names2'] = names2
+        if pool_name == 'sep':
+            c['attr_names'] = special_names(rng, types, rows0, pool, SCALE_H4)
+        c['subsets'] = fill(dict(kind='cl', rows=rows), rng)['subsets'][:40]
+        yield c
+
+
+def big_lists(n):
+    full = list(range(n))
+    out = [[n - 1], [0, n - 1], [n - 1, 0], [n - 1] * n, full, list(reversed(full)), full + [0], full[1:], full[:-1],
+           [i for i in full if i % 3 == 0], [0], [1], [0, 1], [n - 2, n - 1], [2, n - 1, 2],
+           [(i // 2) * 2 % n for i in full], [n - 1 - (i // 2) for i in full]]
+    if n > 64:
+        out += [[63, 64], [64], [64] * n, full[:64], full[64:]]
+    return out
+
+
+def big_cases():
+    """class H8: 64 / 65 / 129 objects in both binarising shapes and on the object-wise path; the last object (index
+    >= 63 / 64 / 128) carries a unique value, so every closed set containing it differs from one that does not"""
+    for n in (64, 65, 129):
+        subsets = big_lists(n)
+        # (a) more objects than binary attributes: an interval column (H4 grid) and a flag
+        vals = [[[0, 4], 1], [[3, 3], 0], [[4, 4], 1], [[0, 0], 1]]
+        rows = [[list(vals[(5 * i + 1) % 4][0]), vals[(5 * i + 1) % 4][1]] for i in range(n)]
+        rows[n - 1] = [[2, 5], 0]
+        yield from table_cases(['I', 'A'], rows, 'h8-objects', kinds=('cl', 'bin', 'lat'), scale=SCALE_H4, big=True,
+                               subsets=subsets)
+        if n == 65:
+            rows2 = [[list(r[0]), r[1]] for r in rows]
+            rows2[n - 1] = [[1, 5], 0]         # -1 -> -2 in the left end of the last object: same hash, a new threshold
+            _check_hash_kept(['I', 'A'], rows, rows2, SCALE_H4, POOLS['abc'])
+            for mut in ('data', 'inplace'):
+                yield from hist_cases(['I', 'A'], rows, rows2, 'h8-objects', mut, PRE_OPS, scale=SCALE_H4, big=True,
+                                      subsets=subsets)
+            yield from table_cases(['N', 'A'], rows, 'h8-objects', kinds=('cl', 'bin', 'lat'), scale=SCALE_H4, big=True,
+                                   subsets=subsets)
+        # (b) at least as many binary attributes as objects: SetPS over 7 values (128 attributes) and an interval column
+        svals = [[0, 1, 2], [2, 3], [4, 5, 6], [0, 6]] if n < 129 else [[0, 1, 2], [2, 3], [4, 5, 6]]
+        rows = [[list(svals[(3 * i + 2) % len(svals)]), [i % 2, i % 2]] for i in range(n)]
+        rows[n - 1] = [[1, 3, 5], [0, 1]]
+        yield from table_cases(['S', 'I'], rows, 'h8-objects', kinds=('cl', 'bin', 'lat'), pool='abcdefg', big=True,
+                               subsets=subsets)
 
 
 def load_corpus():
@@ -351,6 +857,12 @@ def gen(tier, seed, boost=False):
         names2 = [f'h{i}' for i in reversed(range(len(rows0)))] if rng.random() < 0.4 else None
         yield from hist_cases(types, rows0, rows, 'history-random', mut, pre, rng=rng, names2=names2,
                               scale=rng.choice(SCALES), all_cols=rng.random() < 0.3)
+    # ---- wave-4 classes (tools/CLASSES.md): H6, H4 (+H4b), H5, H8 -------------------------------------------------
+    yield from h6_cases(tier, rng)
+    yield from h6_hist_cases(tier, rng)
+    yield from h4_cases(tier, rng)
+    yield from h5_cases(tier, rng)
+    yield from big_cases()
     # ---- IntervalNumpyPS columns, small, with values that float32 cannot hold ----------------------------------
     for n in (1, 2, 3):
         for rows in tables(n, ['N'], [IV_FULL]):
@@ -433,7 +945,19 @@ INF = float('inf')
 SCALES = [None,
           [0.1, 19.99, 16777217.0, 16777218.5, 1e300],
           [-INF, -19.99, 0.1, 16777217.0, INF]]
+# class H4: grid points whose images have colliding hash(): -2.0/-1.0, 1.0/2.0**61, 2.0/2.0**62 (hash(float) is the
+# value mod 2**61-1); and images whose repr() have colliding zlib.adler32 in every context: 131.0/212.0
+SCALE_H4 = [-3.0, -2.0, -1.0, 0.0, 1.0, 2.0, 2.0 ** 61, 2.0 ** 62]
+SCALE_ADLER = [0.0, 131.0, 212.0, 300.0]
+assert hash_partners(SCALE_H4) == {1: [2], 2: [1], 4: [6], 6: [4], 5: [7], 7: [5]}
+assert adler_partners(SCALE_ADLER) == {1: [2], 2: [1]}
 _SCALE = [None]       # scale of the case being executed (set by _impl)
+_POOL = [POOLS['abc']]  # SetPS value pool of the case being executed
+
+
+def _enter(c):
+    _SCALE[0] = c.get('scale')
+    _POOL[0] = pool_of(c)
 
 
 def _up(x):
@@ -441,12 +965,87 @@ def _up(x):
     return float(x) if sc is None else sc[x]
 
 
-def _cell(t, v):
+def _mix(*xs):
+    h = 2166136261
+    for x in xs:
+        h = ((h ^ (int(x) & 0xffffffff)) * 16777619 + 0x9e3779b9) & 0xffffffff
+        h ^= h >> 15
+    return h
+
+
+def _spell_num(x, salt):
+    """a Python number EQUAL to x (hence with the same hash): int / float / bool spellings"""
+    import math
+    vs = [x]
+    if isinstance(x, float) and math.isfinite(x) and x == int(x):
+        vs.append(int(x))
+    if isinstance(x, int) and not isinstance(x, bool) and abs(x) < 2 ** 53:
+        vs.append(float(x))
+    if x == 0 or x == 1:
+        vs.append(bool(x))
+    v = vs[salt % len(vs)]
+    assert v == x and hash(v) == hash(x)
+    return v
+
+
+def _spell_val(v, salt):
+    """an equal spelling of a SetPS value (numbers inside tuples / frozensets included)"""
+    if isinstance(v, str):
+        return v
+    if isinstance(v, tuple):
+        return tuple(_spell_num(e, salt + k) for k, e in enumerate(v))
+    if isinstance(v, frozenset):
+        return frozenset(_spell_num(e, salt + k) for k, e in enumerate(sorted(v)))
+    return _spell_num(v, salt)
+
+
+ATTR_TRUE = [True, 1, 1.0, -1, -2, P61, 2 ** 61]
+ATTR_FALSE = [False, 0, 0.0]
+
+
+def _cell(t, v, salt=0):
+    """the Python cell for the abstract cell `v`; salt 0 = the plain spelling, otherwise one of the equal spellings
+    (1 / 1.0 / True, scalar / tuple / list for a point interval, set / frozenset / list / tuple / bare value)"""
     if t in 'IN':
         a, b = v
-        return _up(a) if a == b else (_up(a), _up(b))
+        lo, hi = _up(a), _up(b)
+        if not salt:
+            return lo if a == b else (lo, hi)
+        lo, hi = _spell_num(lo, salt), _spell_num(hi, salt >> 3)
+        how = (salt >> 6) % 4
+        if a == b and how == 0:
+            return lo
+        if a == b and how == 1:
+            return [lo]
+        return (lo, hi) if how < 3 else [lo, hi]
     if t == 'S':
-        return {SYM[x] for x in v}
+        pool = _POOL[0]
+        if not salt:
+            return {pool[x] for x in v}
+        vals = [_spell_val(pool[x], salt + k) for k, x in enumerate(v)]
+        how = (salt >> 6) % 6
+        scalar = len(vals) == 1 and isinstance(vals[0], (str, int, float))
+        if how == 0 and scalar:
+            return vals[0]                         # a bare value stands for the one-element set
+        if how == 1:
+            return frozenset(vals)
+        if how == 2:
+            return list(vals) + [_spell_val(pool[x], salt + 5 + k) for k, x in enumerate(v)]   # repetitions
+        if how == 3:
+            return tuple(reversed(vals))
+        return set(vals)
+    if not salt:
+        return bool(v)
+    return (ATTR_TRUE if v else ATTR_FALSE)[salt % (len(ATTR_TRUE) if v else len(ATTR_FALSE))]
+
+
+def _stored(t, v):
+    """the value the structure itself stores for the abstract cell `v` (what `_transform_data` produces): used for
+    in-place edits of `ps.data[i]`"""
+    if t in 'IN':
+        return (float(_up(v[0])), float(_up(v[1])))
+    if t == 'S':
+        return {_POOL[0][x] for x in v}
     return bool(v)
 
 
@@ -455,14 +1054,28 @@ def _ps_classes():
     return {'I': PS.IntervalPS, 'N': PS.IntervalNumpyPS, 'S': PS.SetPS, 'A': PS.AttributePS}
 
 
-def make_mv(c, rows=None, obj_names=None):
+def _attr_names(c):
+    return list(c.get('attr_names') or [str(j) for j in range(len(c['types']))])
+
+
+def _obj_names(c, n):
+    return list(c.get('obj_names') or [f'g{i}' for i in range(n)])
+
+
+def _cells(c, rows, phase=0):
+    sp = c.get('sp') or 0
+    return [[_cell(t, v, _mix(sp, i, j, phase) if sp else 0) for j, (t, v) in enumerate(zip(c['types'], r))]
+            for i, r in enumerate(rows)]
+
+
+def make_mv(c, rows=None, obj_names=None, phase=0):
     from fcapy.mvcontext import MVContext
     cls = _ps_classes()
-    _SCALE[0] = c.get('scale')
-    names = [str(j) for j in range(len(c['types']))]
-    data = [[_cell(t, v) for t, v in zip(c['types'], r)] for r in (c['rows'] if rows is None else rows)]
+    _enter(c)
+    names = _attr_names(c)
+    data = _cells(c, c['rows'] if rows is None else rows, phase)
     return MVContext(data, {nm: cls[t] for nm, t in zip(names, c['types'])}, attribute_names=names,
-                     object_names=obj_names or [f'g{i}' for i in range(len(data))])
+                     object_names=obj_names or _obj_names(c, len(data)))
 
 
 def _num(x):
@@ -482,7 +1095,7 @@ def canon_dval(t, v):
     if t in 'IN':
         return {'I': None if v is None else [_num(v[0]), _num(v[1])]}
     if t == 'S':
-        return {'S': None if v is None else sorted(SYM.index(s) for s in v)}
+        return {'S': None if v is None else sorted(_POOL[0].index(s) for s in v)}
     return {'B': int(bool(v))}
 
 
@@ -494,7 +1107,7 @@ def py_dval(v):
     if 'I' in v:
         return None if v['I'] is None else (_up(v['I'][0]), _up(v['I'][1]))
     if 'S' in v:
-        return None if v['S'] is None else {SYM[x] for x in v['S']}
+        return None if v['S'] is None else {_POOL[0][x] for x in v['S']}
     return bool(v['B'])
 
 
@@ -520,7 +1133,8 @@ _TIMED_OUT = set()      # cases (of this process) on which the implementation ra
 
 def _case_id(c):
     import json
-    return json.dumps([c['kind'], c['types'], c['rows'], c.get('sub'), c.get('rows0'), c.get('mut')])
+    return json.dumps([c['kind'], c['types'], c['rows'], c.get('sub'), c.get('rows0'), c.get('mut'), c.get('pool'),
+                       c.get('sp'), c.get('attr_names'), c.get('obj_names'), c.get('side')])
 
 
 class NonTermination(BaseException):     # not an Exception: the per-call handlers of _impl must not swallow it
@@ -572,6 +1186,27 @@ def _as_variant(v, base):
     return list(base)
 
 
+def _snap(Kb):
+    """everything a binarised FormalContext answers: table, width, object / attribute names"""
+    rows = [[int(bool(v)) for v in r] for r in Kb.data.to_list()]
+    return {'names': [str(x) for x in Kb.object_names], 'rows': rows, 'w': int(Kb.n_attributes),
+            'n': int(Kb.n_objects), 'attrnames': [str(x) for x in Kb.attribute_names]}
+
+
+def _observe_bin(K, c, n):
+    Kb = K.binarize()
+    out = _snap(Kb)
+    produced = list(K.to_bin_attr_extents())
+    out.update(mvnames=[str(x) for x in K.object_names], nbin=int(K.n_bin_attrs), nattrnames=len(out['attrnames']),
+               nprod=len(produced), prodnames=[str(m) for m, _e in produced],
+               tobin=[[int(bool(v)) for v in e] for _m, e in produced],
+               nbin_cols=[int(ps.n_bin_attrs) for ps in K.pattern_structures],
+               nprod_cols=[len(list(ps.to_bin_attr_extents())) for ps in K.pattern_structures])
+    if not c.get('big'):
+        out['closed_mv'] = _closed_mv(K, n)
+    return out
+
+
 def _observe(K, c):
     """the observation of kind c['kind'] on the context object K (whose content is c['rows'])"""
     types, n = c['types'], len(c['rows'])
@@ -592,6 +1227,10 @@ def _observe(K, c):
                     x['fo'] = {'e': ints(pc.extent_i), 'i': canon_desc(types, dict(pc.intent_i)),
                                'names': [str(g) for g in pc.extent]}
                     x['fo_names_want'] = [str(K.object_names[g]) for g in pc.extent_i]
+                if c.get('byname') and k % 3 == 1:
+                    # the name-keyed forms: descriptions keyed by pattern-structure name, objects by name
+                    x['byname'] = [str(g) for g in K.extension(K.intention([K.object_names[g] for g in A]))]
+                    x['byname_want'] = [str(K.object_names[g]) for g in e]
                 res.append(x)
             except Exception as ex:
                 res.append({'err': exc_name(ex)})
@@ -609,17 +1248,12 @@ def _observe(K, c):
         return {'mat': mat}
     if kind == 'bin':
         try:
-            Kb = K.binarize()
-            rows = [[int(bool(v)) for v in r] for r in Kb.data.to_list()]
-            return {'names': [str(x) for x in Kb.object_names], 'mvnames': [str(x) for x in K.object_names],
-                    'rows': rows, 'w': int(Kb.n_attributes), 'n': int(Kb.n_objects), 'nbin': int(K.n_bin_attrs),
-                    'nattrnames': len(Kb.attribute_names),
-                    'nprod': len(list(K.to_bin_attr_extents())), 'closed_mv': _closed_mv(K, n)}
+            return _observe_bin(K, c, n)
         except Exception as ex:
             return {'err': exc_name(ex)}
     if kind == 'lat':
         from fcapy.lattice import ConceptLattice
-        out = {'paths': [], 'closed_ne': _closed_mv(K, n, 1), 'cl_empty': _closure(K, [])}
+        out = {'paths': [], 'closed_ne': None if c.get('big') else _closed_mv(K, n, 1), 'cl_empty': _closure(K, [])}
         bot = {j: (None if t in 'IN' else (set() if t == 'S' else True)) for j, t in enumerate(types)}
         out['ext_bottom'] = ints(K.extension_i(bot))
         for thr in (0, 1000):
@@ -639,13 +1273,19 @@ def _observe(K, c):
     raise ValueError(kind)
 
 
-PRE_OPS = ('nbin', 'binarize', 'tobin', 'lat1000', 'lat0', 'cl', 'int0', 'data', 'hash')
+PRE_OPS = ('nbin', 'binarize', 'tobin', 'lat1000', 'lat0', 'cl', 'int0', 'data', 'hash', 'pyhash', 'byname')
 
 
-def _warm(K, ops, n):
+def _warm(K, ops, n, descs=()):
     """first use of the object: everything that could fill a memo; returns the values handed back to the caller"""
     from fcapy.lattice import ConceptLattice
     got = []
+    for desc in descs or ():
+        try:
+            got.append(K.extension_i(py_desc(desc)))
+            got.append(K.extension_i(py_desc(desc), base_objects_i=[n - 1, 0]))
+        except Exception:
+            pass
     for op in ops:
         try:
             if op == 'nbin':
@@ -674,6 +1314,17 @@ def _warm(K, ops, n):
                 [ps.data for ps in K.pattern_structures]
             elif op == 'hash':
                 got.append(K.hash_fixed())
+            elif op == 'pyhash':
+                for ps in K.pattern_structures:
+                    try:
+                        got.append(hash(ps))        # TypeError for SetPS (a list of sets)
+                    except TypeError:
+                        pass
+                got.append(hash(K))
+            elif op == 'byname':
+                d = K.intention([K.object_names[0], K.object_names[n - 1]])
+                got.append(d)
+                got.append(K.extension(d))
         except Exception:
             pass        # e.g. the KeyError of finding D17 on the first content; the judged observation comes later
     return got
@@ -709,25 +1360,46 @@ def _scribble(v, depth=0):
             pass
 
 
-def _impl_hist(c):
-    """use -> mutate through public setters (or scribble on returned values / own inputs) -> use again, on ONE object"""
+def _inplace(K, c, rows0, rows):
+    """edit the changed cells in place through `ps.data` -- the structure's own storage, which the getter hands out
+    (that is how a caller corrects one cell); the value written is the one the structure itself would store"""
+    for j, t in enumerate(c['types']):
+        d = K.pattern_structures[j].data
+        for i, (r0, r) in enumerate(zip(rows0, rows)):
+            if r0[j] == r[j] and not c.get('all_cols'):
+                continue
+            v = _stored(t, r[j])
+            if t == 'S' and (i + j) % 2 == 0:
+                d[i].clear()            # the very set object the structure holds
+                d[i].update(v)
+            elif t == 'N' and (i + j) % 2 == 0:
+                d[i, 0] = v[0]
+                d[i, 1] = v[1]
+            else:
+                d[i] = v
+
+
+def _mutate(K, c, got, data):
+    """the mutation step of a history; returns the object the second use is made on"""
     from fcapy.mvcontext import MVContext
     cls = _ps_classes()
-    _SCALE[0] = c.get('scale')
     types, rows0, rows = c['types'], c['rows0'], c['rows']
-    n = len(rows0)
-    names = [str(j) for j in range(len(types))]
-    data = [[_cell(t, v) for t, v in zip(types, r)] for r in rows0]
-    objn = [f'g{i}' for i in range(n)]
-    K = MVContext(data, {nm: cls[t] for nm, t in zip(names, types)}, attribute_names=names, object_names=objn)
-    got = _warm(K, c['pre'], n)
+    names = _attr_names(c)
     mut = c['mut']
+    new = _cells(c, rows, 1)
     if mut == 'data':
         for j, t in enumerate(types):
             if c.get('all_cols') or any(r0[j] != r[j] for r0, r in zip(rows0, rows)):
-                K.pattern_structures[j].data = [_cell(t, r[j]) for r in rows]
+                K.pattern_structures[j].data = [r[j] for r in new]
+    elif mut == 'inplace':
+        _inplace(K, c, rows0, rows)
     elif mut == 'ps':
-        K.pattern_structures = [cls[t]([_cell(t, r[j]) for r in rows], name=names[j]) for j, t in enumerate(types)]
+        K.pattern_structures = [cls[t]([r[j] for r in new], name=(c.get('ps_names2') or names)[j])
+                                for j, t in enumerate(types)]
+    elif mut == 'fresh2':
+        # class H4b: ANOTHER context object (same names, colliding hashes) used after the first one was used
+        K = MVContext(new, {nm: cls[t] for nm, t in zip(names, types)}, attribute_names=names,
+                      object_names=_obj_names(c, len(rows)))
     elif mut == 'hostile':
         for v in got:
             _scribble(v)
@@ -735,31 +1407,86 @@ def _impl_hist(c):
             for k in range(len(r)):
                 if isinstance(r[k], set):
                     r[k].add('q')
-            r.reverse()
+            if isinstance(r, list):
+                r.reverse()
         data.reverse()
     if c.get('names2') is not None:
         K.object_names = list(c['names2'])
     if c.get('attr_names2') is not None:
         K.attribute_names = list(c['attr_names2'])
+    return K
+
+
+def _impl_hist(c):
+    """use -> mutate through public setters (or scribble on returned values / own inputs) -> use again, on ONE object"""
+    from fcapy.mvcontext import MVContext
+    cls = _ps_classes()
+    _enter(c)
+    types, rows0 = c['types'], c['rows0']
+    n = len(rows0)
+    names = _attr_names(c)
+    data = _cells(c, rows0, 0)
+    K = MVContext(data, {nm: cls[t] for nm, t in zip(names, types)}, attribute_names=names,
+                  object_names=_obj_names(c, n))
+    got = _warm(K, c['pre'], n, c.get('descs'))
+    K = _mutate(K, c, got, data)
     sub = dict(c, kind=c['sub'])
     return _observe(K, sub)
+
+
+def _impl_h5(c):
+    """class H5: Kb = K.binarize() is a NEW object.  Mutate one of the two through its public API, then ask both:
+    Kb answers for the content it was derived from (unless it is the one mutated), K for its current content, and
+    K.binarize() asked AGAIN is the binarisation of K as it is now, with K's names."""
+    from fcapy.mvcontext import MVContext
+    cls = _ps_classes()
+    _enter(c)
+    types, rows0 = c['types'], c['rows0']
+    n = len(rows0)
+    names = _attr_names(c)
+    data = _cells(c, rows0, 0)
+    K = MVContext(data, {nm: cls[t] for nm, t in zip(names, types)}, attribute_names=names,
+                  object_names=_obj_names(c, n))
+    got = _warm(K, c.get('pre') or (), n)
+    Kb = K.binarize()
+    snap0 = _snap(Kb)
+    if c['side'] == 'src':
+        K2 = _mutate(K, c, got, data)
+        assert K2 is K
+    else:
+        how = c['mut']
+        if how in ('der-names', 'der-all'):
+            Kb.object_names = [f'b{i}, x' for i in range(n)]
+        if how in ('der-attrs', 'der-all'):
+            Kb.attribute_names = [f'm{k}' for k in range(Kb.n_attributes)]
+        if how in ('der-data', 'der-all'):
+            Kb.data.data = [[not v for v in r] for r in Kb.data.to_list()]
+        if how == 'der-scribble':
+            for v in (Kb.data.to_list(), Kb.object_names, Kb.attribute_names, list(K.to_bin_attr_extents())):
+                _scribble(v)
+    first = _snap(Kb)
+    return {'snap0': snap0, 'first': first, 'again': _observe(K, dict(c, kind='bin')),
+            'cl': _observe(K, dict(c, kind='cl'))}
 
 
 def _impl(c):
     if c['kind'] == 'hist':
         return _impl_hist(c)
+    if c['kind'] == 'h5':
+        return _impl_h5(c)
     return _observe(make_mv(c), c)
 
 
 # ----------------------------------------------------------------------------------------------------------
 # Lean side
 
-def lean_K(c):
+def lean_K(c, rows=None, names=None):
+    rows = c['rows'] if rows is None else rows
     cols = []
     for j, t in enumerate(c['types']):
-        cols.append({'t': 'I' if t in 'IN' else t, 'd': [r[j] for r in c['rows']]})
-    n = len(c['rows'])
-    return {'n': n, 'names': list(c.get('names2') or [f'g{i}' for i in range(n)]), 'cols': cols}
+        cols.append({'t': 'I' if t in 'IN' else t, 'd': [r[j] for r in rows]})
+    n = len(rows)
+    return {'n': n, 'names': list(names or c.get('names2') or _obj_names(c, n)), 'cols': cols}
 
 
 REQUESTS_NEED_IMPL = True
@@ -770,15 +1497,23 @@ def requests(c, io):
         return requests(dict(c, kind=c['sub']), io)
     K = lean_K(c)
     kind = c['kind']
+    if kind == 'h5':
+        first, again = io.get('first') or {}, io.get('again') or {}
+        return [dict(op='C14.bin', K=lean_K(c, c['rows0'], _obj_names(c, len(c['rows0']))),
+                     rows=first.get('rows') or [[0]], w=first.get('w', 1)),
+                dict(op='C14.bin', K=K, rows=again.get('rows') or [[0]], w=again.get('w', 1)),
+                dict(op='C14.cl', K=K, subsets=c['subsets'])]
     if kind == 'cl':
         return [dict(op='C14.cl', K=K, subsets=c['subsets'])]
     if kind == 'conj':
         return [dict(op='C14.ext', K=K, descs=c['descs'], bases=c['bases'])]
     if kind == 'bin':
         rows = io.get('rows') or [[0]]
+        if c.get('big'):
+            return [dict(op='C14.binBig', K=K, rows=rows, w=io.get('w', 1), subsets=c['subsets'])]
         return [dict(op='C14.bin', K=K, rows=rows, w=io.get('w', 1))]
     if kind == 'lat':
-        return [dict(op='C14.lat', K=K, thrs=[0, 1000])]
+        return [dict(op='C14.latBig' if c.get('big') else 'C14.lat', K=K, thrs=[0, 1000])]
     raise ValueError(kind)
 
 
@@ -788,6 +1523,86 @@ def _key(e):
 
 def _canon_concepts(cs):
     return sorted(([x['e'], sorted(x['i'])] for x in cs), key=lambda p: (_key(p[0]), str(p[1])))
+
+
+def _cols_of(rows, w):
+    return [[r[k] for r in rows] for k in range(w)]
+
+
+def _judge_bin(c, io, r, n, closed_mv=None):
+    """the binarised context: same objects; declared = produced = actual number of binary attributes, column by
+    column of the many-valued context (names of binary attributes may repeat: they are counted, never merged); its
+    columns are the produced extents in order; same closed object sets as the many-valued context"""
+    if 'err' in io:
+        return dict(ok=False, kind='property', detail=f'binarize() raised {io["err"]}')
+    if io['names'] != io['mvnames'] or io['n'] != n:
+        return dict(ok=False, kind='property', detail=f'binarised context has objects {io["names"]}, expected {io["mvnames"]}')
+    if not (io['w'] == io['nbin'] == io['nprod'] == io['nattrnames']):
+        return dict(ok=False, kind='property',
+                    detail=f'n_bin_attrs={io["nbin"]}, produced={io["nprod"]}, width={io["w"]}, names={io["nattrnames"]}')
+    if io['nbin_cols'] != io['nprod_cols'] or sum(io['nbin_cols']) != io['nbin']:
+        return dict(ok=False, kind='property',
+                    detail=f'per column: declared n_bin_attrs {io["nbin_cols"]}, produced {io["nprod_cols"]}, total {io["nbin"]}')
+    if c.get('big'):
+        if not r['wf'] or not r['bottomOK']:
+            return dict(ok=False, kind='harness', detail='large case without an interval column / not well-formed')
+        for A, y in zip(c['subsets'], r['closures']):
+            if A and y['table'] != y['mv']:
+                return dict(ok=False, kind='property',
+                            detail=f'the binarised context closes {A} to {y["table"]}, the many-valued context to {y["mv"]}')
+        if r['tableBottom'] != r['extBottom']:
+            return dict(ok=False, kind='property',
+                        detail=f'least closed set of the binarised context {r["tableBottom"]} != {r["extBottom"]}')
+    else:
+        want = io['closed_mv'] if closed_mv is None else closed_mv
+        if r['closed_impl_table'] != want:
+            return dict(ok=False, kind='property',
+                        detail=f'closed object sets of the binarised context {r["closed_impl_table"]} != closed sets of the '
+                               f'many-valued context {want}')
+    if _cols_of(io['rows'], io['w']) != io['tobin']:
+        return dict(ok=False, kind='property',
+                    detail=f'the columns of binarize() {_cols_of(io["rows"], io["w"])} are not the extents produced by '
+                           f'to_bin_attr_extents() in their order {io["tobin"]}')
+    if io['attrnames'] != io['prodnames']:
+        return dict(ok=False, kind='correspondence',
+                    detail=f'attribute names of binarize() {io["attrnames"]} are not the produced names {io["prodnames"]}')
+    m = r['model']
+    same_rows = 'err' not in m and m['rows'] == io['rows']
+    if not same_rows and 'err' not in m and (c.get('pool') in UNORDERED_POOLS) and m['w'] == io['w']:
+        # the order in which SetPS lists incomparable values is the set's iteration order: compare as a multiset
+        same_rows = sorted(_cols_of(m['rows'], m['w'])) == sorted(_cols_of(io['rows'], io['w']))
+    if 'err' in m or not same_rows or m['w'] != io['w'] or r['nbin'] != io['nbin'] or m['names'] != io['names']:
+        return dict(ok=False, kind='correspondence', detail=f'binarised table differs from the model: {io["rows"]} vs {m}')
+    if r['nproduced'] != r['nbin']:
+        return dict(ok=False, kind='harness', detail='model: n_bin_attrs != number produced (contradicts theorem)')
+    return dict(ok=True)
+
+
+def _judge_h5(c, io, rep):
+    n = len(c['rows0'])
+    snap0, first, again = io['snap0'], io['first'], io['again']
+    r0, r1, rcl = rep
+    if c['side'] == 'src' or c['mut'] == 'der-scribble':
+        if first != snap0:
+            return dict(ok=False, kind='property',
+                        detail=f'the context returned by binarize() changed when {"the many-valued context" if c["side"] == "src" else "values it returned"} '
+                               f'was mutated ({c["mut"]}): {snap0} -> {first}')
+        # it is (still) the binarisation of the content it was derived from
+        if first['names'] != _obj_names(c, n) or first['n'] != n:
+            return dict(ok=False, kind='property', detail=f'binarize() of the first content has objects {first["names"]}')
+        if r0['bottomOK'] and r0['closed_impl_table'] != r0['closed_mv']:
+            return dict(ok=False, kind='property',
+                        detail=f'closed sets of binarize() of the FIRST content {r0["closed_impl_table"]} != {r0["closed_mv"]}')
+        m = r0['model']
+        if c.get('pool') not in UNORDERED_POOLS and ('err' in m or m['rows'] != first['rows'] or m['w'] != first['w']):
+            return dict(ok=False, kind='correspondence', detail=f'first binarize() differs from the model: {first} vs {m}')
+    v = _judge_bin(c, again, r1, len(c['rows']))
+    if not v['ok']:
+        return dict(v, detail=f'binarize() asked AGAIN after mutation {c["mut"]} of the {c["side"]} side: ' + str(v.get('detail')))
+    v = judge(dict(c, kind='cl'), io['cl'], [rcl])
+    if not v['ok']:
+        return dict(v, detail=f'after binarize() and mutation {c["mut"]} of the {c["side"]} side: ' + str(v.get('detail')))
+    return dict(ok=True)
 
 
 def judge(c, io, rep):
@@ -800,6 +1615,8 @@ def judge(c, io, rep):
         return v
     kind = c['kind']
     n = len(c['rows'])
+    if kind == 'h5':
+        return _judge_h5(c, io, rep)
     if io.get('err') == 'NonTermination':
         return dict(ok=False, kind='property',
                     detail=f'{kind}: the implementation did not finish within {CASE_TIME_LIMIT_S}s on this table')
@@ -831,6 +1648,10 @@ def judge(c, io, rep):
                 if fo['names'] != x['fo_names_want']:
                     return dict(ok=False, kind='property', detail=f'from_objects({A}): extent names {fo["names"]} do not '
                                                                   f'name the extent {fo["e"]}')
+            if 'byname' in x and x['byname'] != x['byname_want']:
+                return dict(ok=False, kind='property',
+                            detail=f'extension(intention(names of {A})) = {x["byname"]}, the closure {x["cl"]} is '
+                                   f'named {x["byname_want"]}')
             fs = frozenset(A)
             if fs in cl_of and cl_of[fs] != x['cl']:
                 return dict(ok=False, kind='property', detail=f'closure depends on how the object set {sorted(fs)} is listed ({A})')
@@ -856,29 +1677,18 @@ def judge(c, io, rep):
                                 detail=f'extension_i({d}, base={b}) = {x}; objects of the base covered by every column: {y["spec"]}')
         return dict(ok=True)
     if kind == 'bin':
-        r = rep[0]
-        if 'err' in io:
-            return dict(ok=False, kind='property', detail=f'binarize() raised {io["err"]}')
-        if io['names'] != io['mvnames'] or io['n'] != n:
-            return dict(ok=False, kind='property', detail=f'binarised context has objects {io["names"]}, expected {io["mvnames"]}')
-        if not (io['w'] == io['nbin'] == io['nprod'] == io['nattrnames']):
-            return dict(ok=False, kind='property',
-                        detail=f'n_bin_attrs={io["nbin"]}, produced={io["nprod"]}, width={io["w"]}, names={io["nattrnames"]}')
-        if r['closed_impl_table'] != io['closed_mv']:
-            return dict(ok=False, kind='property',
-                        detail=f'closed object sets of the binarised context {r["closed_impl_table"]} != closed sets of the '
-                               f'many-valued context {io["closed_mv"]}')
-        m = r['model']
-        if 'err' in m or m['rows'] != io['rows'] or m['w'] != io['w'] or r['nbin'] != io['nbin'] or m['names'] != io['names']:
-            return dict(ok=False, kind='correspondence', detail=f'binarised table differs from the model: {io["rows"]} vs {m}')
-        if r['nproduced'] != r['nbin']:
-            return dict(ok=False, kind='harness', detail='model: n_bin_attrs != number produced (contradicts theorem)')
-        return dict(ok=True)
+        return _judge_bin(c, io, rep[0], n)
     if kind == 'lat':
         r = rep[0]
         if r['bottomOK'] != bottom_ok_py(c['types'], c['rows']):
             return dict(ok=False, kind='harness', detail='BottomOK of the Lean side differs from the generator predicate')
         closed = r['closed']
+        if c.get('big'):
+            # no enumeration of object subsets: the oracle is the model's own first path, which IS the list of closed
+            # sets by mv_lattice_exact (BottomOK from the interval column: bottomOK_characterised)
+            if not (r['bottomOK'] and r['wf'] and r['selfClosed']) or any('ok' not in q['res'] for q in r['paths']):
+                return dict(ok=False, kind='harness', detail=f'large case: model oracle not applicable / failed: {r}'[:300])
+            io = dict(io, closed_ne=[e for e in closed if e != io['ext_bottom']])
         # the spec's closed sets, recomputed with the implementation's own closure (cross-check of the oracle)
         impl_closed = sorted({tuple(e) for e in io['closed_ne']} | {tuple(io['ext_bottom'])}, key=_key)
         if r['clEmpty'] != {'ok': io['cl_empty']}:
@@ -943,13 +1753,25 @@ def nontrivial(c):
 def key(c):
     return [c['kind'], c['types'], c['rows'], c.get('descs') if c['stream'].startswith('random') else None,
             c.get('subsets') if c['stream'].startswith('random') else None,
-            c.get('sub'), c.get('rows0'), c.get('mut'), c.get('pre'), c.get('names2'), c.get('scale')]
+            c.get('sub'), c.get('rows0'), c.get('mut'), c.get('pre'), c.get('names2'), c.get('scale'),
+            c.get('pool'), c.get('sp'), c.get('attr_names'), c.get('obj_names'), c.get('side'), c.get('ps_names2'),
+            c.get('subsets') if c.get('big') else None]
 
 
 def branch(c, io, rep):
     out = [c['stream'], f"kind:{c['kind']}", f"types:{''.join(sorted(c['types']))}"]
     if c['kind'] == 'hist':
         out.append(f"hist:{c['mut']}:{c['sub']}" + (':names' if c.get('names2') else ''))
+    if c['kind'] == 'h5':
+        out.append(f"h5:{c['side']}:{c['mut']}")
+    if c.get('pool'):
+        out.append(f"pool:{c['pool']}")
+    if c.get('sp'):
+        out.append('spelled')
+    if c.get('big'):
+        out.append(f"objects:{len(c['rows'])}")
+    if c.get('attr_names') or c.get('obj_names'):
+        out.append('names:special')
     if c.get('scale'):
         out.append('scale:non-float32' + ('+inf' if INF in c['scale'] else ''))
     if c.get('sub', c['kind']) == 'lat' and rep and 'paths' in rep[0]:
@@ -975,7 +1797,7 @@ def shrink(c):
     """smaller cases.  Two guards: (1) a case that BottomOK holds for is never shrunk into a table without BottomOK
     (it would slide into the known finding D17 and the genuine failure would be filed under it); (2) a case on which
     the implementation hit the time guard is reported as it is (every shrinking step would cost the full time limit)."""
-    if _case_id(c) in _TIMED_OUT or c['kind'] == 'hist':
+    if _case_id(c) in _TIMED_OUT or c['kind'] in ('hist', 'h5') or c.get('big'):
         return
     keep_bottom = bottom_ok_py(c['types'], c['rows'])
     for d in _shrink(c):
@@ -988,17 +1810,22 @@ def _shrink(c):
     rows, types = c['rows'], c['types']
     n, m = len(rows), len(types)
 
-    def rebuild(nrows, ntypes):
+    def rebuild(nrows, ntypes, drop_row=None, drop_col=None):
         d = dict(stream=c['stream'], kind=c['kind'], types=list(ntypes), rows=nrows)
-        if c.get('scale'):
-            d['scale'] = c['scale']
+        for k in ('scale', 'pool', 'sp', 'byname'):
+            if c.get(k):
+                d[k] = c[k]
+        if c.get('obj_names'):
+            d['obj_names'] = [x for i, x in enumerate(c['obj_names']) if i != drop_row]
+        if c.get('attr_names'):
+            d['attr_names'] = [x for j, x in enumerate(c['attr_names']) if j != drop_col]
         return fill(d)
     if n > 1:
         for i in range(n):
-            yield rebuild(rows[:i] + rows[i + 1:], types)
+            yield rebuild(rows[:i] + rows[i + 1:], types, drop_row=i)
     if m > 1:
         for j in range(m):
-            yield rebuild([r[:j] + r[j + 1:] for r in rows], types[:j] + types[j + 1:])
+            yield rebuild([r[:j] + r[j + 1:] for r in rows], types[:j] + types[j + 1:], drop_col=j)
     for i in range(n):
         for j, t in enumerate(types):
             v = rows[i][j]
